@@ -10,6 +10,8 @@ import time
 
 VERIF = os.path.dirname(os.path.dirname(os.path.abspath(__file__)))
 REPO = os.environ.get("VERIF_REPO", "/repo")
+# scratch runs against a mutated copy of the tree (mc/seedtest.py) must not overwrite the committed evidence
+OUT = os.environ.get("VERIF_OUT", VERIF)
 
 MAX_PER_KIND = 20  # fail fast: per worker and kind, keep at most this many violations
 MAX_REPORTED = 8  # VIOLATION lines (with replay files) printed per run
@@ -143,7 +145,7 @@ class Run:
                 unknown.append(v)
         for key, k in sorted(known_hit.items()):
             print(f"KNOWN-FINDING: property={self.pid} {k.get('what', key)}")
-        rdir = os.path.join(VERIF, "replays", self.pid)
+        rdir = os.path.join(OUT, "replays", self.pid)
         reported = 0
         for v in unknown:
             if reported >= MAX_REPORTED:
@@ -192,11 +194,11 @@ class Run:
             "wall_s": round(wall, 2),
             "violations": len(unknown),
         }
-        os.makedirs(os.path.join(VERIF, "evidence"), exist_ok=True)
-        tmp = os.path.join(VERIF, "evidence", f".{self.pid}.json.tmp")
+        os.makedirs(os.path.join(OUT, "evidence"), exist_ok=True)
+        tmp = os.path.join(OUT, "evidence", f".{self.pid}.json.tmp")
         with open(tmp, "w") as fh:
             json.dump(ev, fh, indent=1, sort_keys=True)
-        os.replace(tmp, os.path.join(VERIF, "evidence", f"{self.pid}.json"))
+        os.replace(tmp, os.path.join(OUT, "evidence", f"{self.pid}.json"))
         print(f"[{self.pid}] tier={self.tier} seed={self.seed} states={states} transitions={transitions} "
               f"executions={traces} evaluations={evaluations} nontrivial={distinct_nontrivial} "
               f"outcomes={len(tot.o)} violations={len(unknown)} known={len(known_hit)} wall={wall:.1f}s")
